@@ -124,7 +124,13 @@ class IndividualAddress(BaseAddress):
             self.raw = address.raw
         elif isinstance(address, str):
             if address.isdigit():
-                self.raw = int(address)
+                try:
+                    self.raw = int(address)
+                except ValueError as err:
+                    # str.isdigit() accepts characters and lengths int() does not
+                    raise CouldNotParseAddress(
+                        address, message="Invalid format"
+                    ) from err
             else:
                 self.raw = self.__string_to_int(address)
         else:
@@ -240,7 +246,13 @@ class GroupAddress(BaseAddress):
             self.raw = address.raw
         elif isinstance(address, str):
             if address.isdigit():
-                self.raw = int(address)
+                try:
+                    self.raw = int(address)
+                except ValueError as err:
+                    # str.isdigit() accepts characters and lengths int() does not
+                    raise CouldNotParseAddress(
+                        address, message="Invalid format"
+                    ) from err
             else:
                 self.raw = self.__string_to_int(address)
         else:
